@@ -891,17 +891,32 @@ func (s *clientSocket) _sendBuffers(volatile, forceSend bool, ackID *uint64, buf
 		// connection when it receives a packet for a namespace that is not joined yet.
 		sendImmediately := s.state == clientSocketConnStateConnected
 		s.stateMu.RUnlock()
+		if sendImmediately && !forceSend {
+			// The state is set to connected before the send buffer is flushed (see `onConnect`).
+			// Packets that are still waiting in the send buffer were emitted earlier, so they must
+			// be sent earlier. Get behind them, they are about to be flushed.
+			s.sendBufferMu.Lock()
+			if len(s.sendBuffer) != 0 {
+				for _, packet := range packets {
+					s.sendBuffer = append(s.sendBuffer, sendBufferItem{ackID: ackID, packet: packet})
+				}
+				s.sendBufferMu.Unlock()
+				return
+			}
+			s.sendBufferMu.Unlock()
+		}
 		if sendImmediately || forceSend {
 			s.manager.packet(packets...)
 		} else if !volatile {
 			s.sendBufferMu.Lock()
-			// The socket may have become connected after the state was read above. If so, the
-			// send buffer has already been flushed (onConnect sets the state first, then flushes
-			// under this mutex) and nothing would ever send a packet that is appended now.
+			// The socket may have become connected after the state was read above. If so, and if the
+			// send buffer is empty, the send buffer has already been flushed (onConnect sets the state
+			// first, then flushes under this mutex) and nothing would ever send a packet that is
+			// appended now. If it is not empty, the flush is yet to come: get behind the others.
 			s.stateMu.RLock()
 			connected := s.state == clientSocketConnStateConnected
 			s.stateMu.RUnlock()
-			if connected {
+			if connected && len(s.sendBuffer) == 0 {
 				s.sendBufferMu.Unlock()
 				s.manager.packet(packets...)
 				return
